@@ -5,7 +5,7 @@ import sys,os,subprocess,shutil,tempfile,json,re,glob
 ENV=dict(os.environ,GOFLAGS='-mod=mod',GOPROXY='off',GOSUMDB='off',GOTOOLCHAIN='local')
 def sh(cmd,cwd,timeout=600):
     try:
-        r=subprocess.run(cmd,cwd=cwd,env=ENV,capture_output=True,text=True,timeout=timeout,shell=isinstance(cmd,str))
+        r=subprocess.run(cmd,cwd=cwd,env=ENV,capture_output=True,text=True,errors='replace',timeout=timeout,shell=isinstance(cmd,str))
         return r.returncode,(r.stdout+r.stderr)
     except subprocess.TimeoutExpired as e:
         return 124,'TIMEOUT'
